@@ -52,6 +52,14 @@ type spec struct {
 	ignoreCall map[string]bool   // calls that are inert (hooks, logging)
 	consts     map[string]string
 	withReturn bool
+	// calls that amount to assignments to tracked variables: callee spelling -> (tracked Go spelling, argument index or -1, constant)
+	callAssign map[string][]callSet
+}
+
+type callSet struct {
+	goExpr string // tracked variable
+	arg    int    // index of the argument that is assigned, or -1
+	konst  string // Gallina constant assigned when arg < 0
 }
 
 func (s *spec) tuple() string {
@@ -159,8 +167,28 @@ func (s *spec) block(stmts []ast.Stmt, rest string) string {
 	case *ast.BlockStmt:
 		return s.block(append(append([]ast.Stmt{}, x.List...), tail...), rest)
 	case *ast.ExprStmt:
-		if c, ok := x.X.(*ast.CallExpr); ok && s.ignoreCall[src(c.Fun)] {
+		if c, ok := x.X.(*ast.CallExpr); ok && (s.ignoreCall[src(c.Fun)] || strings.HasPrefix(src(c.Fun), "slog.")) {
 			return s.block(tail, rest)
+		}
+		if c, ok := x.X.(*ast.CallExpr); ok {
+			if sets, ok := s.callAssign[src(c.Fun)]; ok {
+				body := s.block(tail, rest)
+				for i := len(sets) - 1; i >= 0; i-- {
+					val := sets[i].konst
+					if sets[i].arg >= 0 {
+						if sets[i].arg >= len(c.Args) {
+							fail("call %s: argument %d missing", src(c.Fun), sets[i].arg)
+						}
+						val = s.expr(c.Args[sets[i].arg])
+					}
+					for _, v := range s.vars {
+						if v.goExpr == sets[i].goExpr {
+							body = "(let " + v.coq + " := " + val + " in " + body + ")"
+						}
+					}
+				}
+				return body
+			}
 		}
 	case *ast.AssignStmt:
 		if len(x.Lhs) == 1 && len(x.Rhs) == 1 && (x.Tok == token.ASSIGN || x.Tok == token.DEFINE) {
@@ -204,6 +232,10 @@ func (s *spec) block(stmts []ast.Stmt, rest string) string {
 				}
 				break
 			}
+			if x.Else == nil && endsWithReturn(x.Body.List) {
+				// if c { ...; return }: the rest of the function runs only when c is false
+				return "(if " + c + " then " + s.block(x.Body.List, s.tuple()) + " else " + s.block(tail, rest) + ")"
+			}
 			thenB := s.block(x.Body.List, s.tuple())
 			elseB := s.tuple()
 			if x.Else != nil {
@@ -212,6 +244,40 @@ func (s *spec) block(stmts []ast.Stmt, rest string) string {
 			return "(let " + s.pattern() + " := (if " + c + " then " + thenB + " else " + elseB + ") in " + s.block(tail, rest) + ")"
 		}
 	case *ast.SwitchStmt:
+		if x.Init == nil && x.Tag == nil && !s.withReturn {
+			// switch { case c1: ...; case c2, c3: ...; default: ... }: a chain of ifs; an arm that ends with `return`
+			// ends the function, any other arm goes on with the statements after the switch
+			arm := func(body []ast.Stmt) string {
+				if endsWithReturn(body) {
+					return s.block(body, s.tuple())
+				}
+				return s.block(append(append([]ast.Stmt{}, body...), tail...), rest)
+			}
+			out := ""
+			var dflt []ast.Stmt
+			type armT struct {
+				cond string
+				body []ast.Stmt
+			}
+			arms := []armT{}
+			for _, cl := range x.Body.List {
+				cc := cl.(*ast.CaseClause)
+				if cc.List == nil {
+					dflt = cc.Body
+					continue
+				}
+				conds := []string{}
+				for _, v := range cc.List {
+					conds = append(conds, s.expr(v))
+				}
+				arms = append(arms, armT{"(" + strings.Join(conds, " || ") + ")", cc.Body})
+			}
+			out = arm(dflt)
+			for i := len(arms) - 1; i >= 0; i-- {
+				out = "(if " + arms[i].cond + " then " + arm(arms[i].body) + " else " + out + ")"
+			}
+			return out
+		}
 		if x.Init == nil && x.Tag != nil && !s.withReturn {
 			tag := s.expr(x.Tag)
 			arms, dflt := []string{}, s.tuple()
@@ -388,6 +454,39 @@ func main() {
 		}
 		body := s.block(fd.Body.List, "")
 		return "Definition gen_next_target (idx k : nat) : nat * option nat :=\n  " + body + "."
+	})
+
+	// 3. handleProxyError: the if-chain over the four classifiers
+	r3 := &result{Name: "gen_handle_proxy_error", Source: "internal/server/target.go: Target.handleProxyError"}
+	results = append(results, r3)
+	translate(r3, func() string {
+		fd := method(files, "Target", "handleProxyError")
+		if fd == nil || fd.Type.Params == nil || len(fd.Type.Params.List) != 3 {
+			fail("method Target.handleProxyError(w, r, err) not found")
+		}
+		names := []string{}
+		for _, f := range fd.Type.Params.List {
+			for _, n := range f.Names {
+				names = append(names, n.Name)
+			}
+		}
+		if len(names) != 3 {
+			fail("handleProxyError: unexpected parameter list")
+		}
+		w, errName := names[0], names[2]
+		cs := map[string]string{"http.StatusRequestEntityTooLarge": "413", "http.StatusGatewayTimeout": "504", "http.StatusBadGateway": "502",
+			"StatusClientClosedRequest": "499", "http.StatusServiceUnavailable": "503", "http.StatusInternalServerError": "500",
+			"true": "true", "false": "false"}
+		s := &spec{name: r3.Name, vars: []tvar{{"#status", "status"}, {"#direct", "direct"}},
+			params: map[string]string{"t.isRequestEntityTooLarge(" + errName + ")": "max_bytes", "t.isGatewayTimeout(" + errName + ")": "timeout",
+				"t.isClientCancellation(" + errName + ")": "canceled", "t.isDraining(" + errName + ")": "draining"},
+			ignoreLHS: map[string]bool{}, ignoreCall: map[string]bool{"verifEvent": true}, consts: cs,
+			callAssign: map[string][]callSet{
+				"SetErrorResponse":   {{"#status", 2, ""}, {"#direct", -1, "false"}},
+				w + ".WriteHeader": {{"#status", 0, ""}, {"#direct", -1, "true"}},
+			}}
+		body := s.block(fd.Body.List, s.tuple())
+		return "Definition gen_handle_proxy_error (max_bytes timeout canceled draining : bool) : nat * bool :=\n  let status := 0 in let direct := false in\n  " + body + "."
 	})
 
 	var b strings.Builder
